@@ -144,6 +144,12 @@ func checkComplete(w world.World) error {
 		if err != nil || wantPath != got {
 			return fmt.Errorf("registry source %s resolves to %q, but the remote address the registry named joined with the sub-path (%s) is at %q (%v)", c.Addr, got, want, wantPath, err)
 		}
+		// the general lookup agrees with the specific ones, for the final registry form as well
+		for _, fv := range []versions.Version{v, v.Comparable()} {
+			if gotG, err := b.LocalPathForSource(rs.Versioned(fv)); err == nil && gotG != got {
+				return fmt.Errorf("LocalPathForSource(%s@%s) = %q, LocalPathForRegistrySource = %q", c.Addr, fv, gotG, got)
+			}
+		}
 		if gotF, err := b.LocalPathForFinalRegistrySource(rs.Versioned(v.Comparable())); err == nil && gotF != got {
 			return fmt.Errorf("LocalPathForFinalRegistrySource(%s@%s) = %q, LocalPathForRegistrySource = %q", c.Addr, v, gotF, got)
 		}
